@@ -196,6 +196,33 @@ def run(A, R: Report, thorough: bool):
                 R.check(isinstance(n.ops[0], (ast.Is, ast.IsNot)), 'R06.3', f.short, key_of('no_value-test', src(n)), f'`{src(n)}`', f'`{src(n)}` compares the sentinel with ==, which calls the value\'s __eq__', where=where(f, n))
     R.require(n_tests >= 2, 'anchor: fewer than 2 unset-tests found (Data.value / cached)')
 
+    # ---- R06.6 what is written is the value itself
+    R.rule('R06.6', 'save() hands the stored value itself to the serialiser (no conversion in between: a conversion that is not the identity on every value changes what a later chain loads)', floor=4)
+    vterm = ('attr', ('self',), '_value')
+    for ci, _vis in persistent_data_classes(A):
+        fsave = ci.lookup('save')
+        if fsave is None:
+            continue
+        calls = [n for n in inl(A, fsave) if isinstance(n, ast.Call)]
+        args = [a_ for c in calls for a_ in list(c.args) + [k.value for k in c.keywords]]
+        at6 = A.sym.terms_at(fsave, ('inst', ci), args) if args else {}
+        n_pass = 0
+        for c in calls:
+            for a_ in list(c.args) + [k.value for k in c.keywords]:
+                for t in at6.get(id(a_), []):
+                    if vterm not in dag_nodes(t):
+                        continue
+                    n_pass += 1
+                    construct = f'{ci.short}.save: `{src(c)[:60]}`'
+                    if has_opaque(t):
+                        R.undecided('R06.6', construct, 'argument involves a construct the term engine does not interpret', where=where(fsave, c))
+                    else:
+                        R.check(t == vterm, 'R06.6', construct, key_of('value-converted', ci.short, pretty(t)[:100]), 'the value itself',
+                                f'the serialiser receives `{pretty(t)[:120]}` instead of the value: for values on which the conversion is not the identity (e.g. 0-d arrays, subclasses, views) the stored result differs from the computed one',
+                                where=where(fsave, c))
+        if n_pass == 0:
+            R.ok('R06.6', f'{ci.short}.save', 'the value is serialised through its own method / element-wise', where=where(fsave))
+
     # ---- R06.4
     R.rule('R06.4', 'items named by enumerate index are read back in numeric order; generated sequences are materialised as lists on both sides', floor=2)
     ln = A.cls('ListOfNumpyData')
